@@ -10,8 +10,10 @@ from common import fbits, show_floats, show_ints
 PROP = 'C02'
 LEAN_TARGETS = ['Props.C02']
 REQUIRED_THEOREMS = ['Props.C02.linear_vjp', 'Props.C02.mse_vjp', 'Props.C02.nll_vjp', 'Props.C02.dropout_vjp', 'Props.C02.conv1d_vjp', 'Props.C02.conv2d_vjp',
-                     'Props.C02.avgpool_vjp', 'Props.C02.relu_vjp', 'Props.C02.sigmoid_vjp', 'Props.C02.maxpool_vjp_subgradient', 'Props.C02.unfold_fold_vjp']
-UNPROVED = ['softmax', 'log_softmax', 'cross_entropy', 'binary_cross_entropy', 'binary_cross_entropy_with_logits', 'batch_norm (all modes)', 'max_pool2d (1d proved)']
+                     'Props.C02.avgpool_vjp', 'Props.C02.relu_vjp', 'Props.C02.sigmoid_vjp', 'Props.C02.maxpool_vjp_subgradient', 'Props.C02.unfold_fold_vjp', 'Props.C02.bce_vjp', 'Props.C02.bce_scalar_deriv', 'Props.C02.bce_logits_vjp',
+                     'Props.C02.bce_logits_factor_within_eps', 'Props.C02.maxpool2d_vjp_subgradient', 'Props.C02.batch_norm_eval_vjp', 'Props.C02.batch_norm_train_vjp',
+                     'Props.C02.batch_norm_gamma_vjp', 'Props.C02.batch_norm_beta_vjp', 'Props.C02.softmax_vjp', 'Props.C02.log_softmax_vjp', 'Props.C02.cross_entropy_vjp']
+UNPROVED = []
 RULE = ('per nn op: relu / leaky_relu (any slope) / selu / tanh / sigmoid, softmax and log_softmax along every dim of ranks 1-4, '
         'mse (both arguments) / nll / bce / bce-with-logits / cross-entropy, linear with and without bias, conv1d / conv2d and '
         'max / avg pooling 1d / 2d over a geometry grid (non-square kernels, stride > kernel, dilation, padding, windows that do not '
